@@ -19,6 +19,7 @@ exercised by the correspondence only.
 import Cacache.Lemmas.ReadBack
 import Cacache.Props.C05
 import Cacache.Lemmas.CodecLaws
+import Cacache.Lemmas.CacheRefine
 
 namespace Cacache.C02
 open Prog
@@ -201,5 +202,71 @@ theorem write_hash_then_read (fl : Flavour) (o : WriteOpts) (chunks : List Bytes
   subst hs
   exact ⟨rfl, readHash_present cfg env cache _ _ _ b hl
     (store_valid_after cfg env cache fl none o chunks fs hv) hf hinj⟩
+
+/-! ### the whole cache refines a key/value map (`Lemmas/CacheRefine.lean`)
+
+Any sequence of the real programs — keyed writes (any flavour, options, chunking), reads by key,
+removals, lookups, index insertions, by-address writes / reads / `exists` / `remove_hash` — run on the
+model filesystem from a healthy cache (the empty cache is one) answers exactly like an abstract
+state `(key ↦ entry, address ↦ bytes)`, keeps the abstraction in step and the cache healthy: total
+correctness included (every write SUCCEEDS and leaves no temp file), memory-mapped and plain
+writers, no assumption on the digest function beyond `HexLen` (digests are at least 2 bytes). -/
+
+open CacheRefine in
+/-- **The cache is a key/value map over a content store** (refinement, by induction over
+arbitrary operation sequences, each operation with its own clock answer). -/
+theorem cache_refines_map (ops : List (Env × COp)) (fs : FS) (h : Healthy cfg cache fs)
+    (hl : HexLen cfg) (hops : ∀ x ∈ ops, x.2.WF cfg) :
+    (cRunOps cfg cache ops fs).1 = (cSpecRun cfg ops (absCache cfg cache fs)).1 ∧
+    absCache cfg cache (cRunOps cfg cache ops fs).2 = (cSpecRun cfg ops (absCache cfg cache fs)).2 ∧
+    Healthy cfg cache (cRunOps cfg cache ops fs).2 :=
+  CacheRefine.cache_refines_map cfg cache ops fs h hl hops
+
+open CacheRefine in
+/-- **C02 with total correctness, no collision hypothesis**: on a healthy cache `write` answers the
+integrity of the data and the following `read` by key returns exactly the data (the file at the
+address was just replaced by it); the cache is healthy again and the temp file is gone. -/
+theorem read_after_write (env' : Env) (fl : Flavour) (a : Algo) (key data : Bytes) (fs : FS)
+    (h : Healthy cfg cache fs) (hl : HexLen cfg) (hk : Json.utf8Valid key = true)
+    (hd : data.length ≤ Rec.u64Max) :
+    (run env (write cfg fl cache a key data) fs).1 = .ok (Sri.compute cfg.H a data) ∧
+    (run env' (read cfg cache key) (run env (write cfg fl cache a key data) fs).2.1).1 = .ok data ∧
+    Healthy cfg cache (run env (write cfg fl cache a key data) fs).2.1 :=
+  let r := CacheRefine.read_after_write cfg cache env env' fl a key data fs h hl hk hd
+  ⟨r.1, r.2.1, r.2.2.1⟩
+
+open CacheRefine in
+/-- The same by address: `write_hash` then `read_hash` (mapped, plain and empty writes). -/
+theorem readHash_after_writeHash (env' : Env) (fl : Flavour) (a : Algo) (data : Bytes) (fs : FS)
+    (h : HealthyStore cfg cache fs) (hl : HexLen cfg) :
+    (run env (writeHash cfg fl cache a data) fs).1 = .ok (Sri.compute cfg.H a data) ∧
+    (run env' (readHash cfg cache (Sri.compute cfg.H a data))
+      (run env (writeHash cfg fl cache a data) fs).2.1).1 = .ok data :=
+  let r := CacheRefine.readHash_after_writeHash cfg cache env env' fl a data fs h hl
+  ⟨r.1, r.2.1⟩
+
+open CacheRefine in
+/-- **After ANY operation sequence**: if `put key` of `chunks` is the last operation writing `key`
+and nothing afterwards removed its address, `read key` returns the bytes now at that address, whose
+digest is the data's — and exactly the data when the digest does not collide on them. -/
+theorem get_returns_last_put_data (pre post : List (Env × COp)) (fl : Flavour) (key : Bytes)
+    (o : WriteOpts) (chunks : List Bytes) (fs : FS) (h : Healthy cfg cache fs) (hl : HexLen cfg)
+    (hops : ∀ x ∈ pre ++ (env, COp.put fl key o chunks) :: post, x.2.WF cfg)
+    (hz : o.size = none ∨ o.size = some chunks.flatten.length)
+    (hkey : ∀ x ∈ post, ¬ x.2.writesKey key)
+    (hdrop : ∀ x ∈ post, ¬ x.2.dropsAddr (o.algo.getD .sha256)
+      (Bytes.hex (cfg.H (o.algo.getD .sha256) chunks.flatten)))
+    (hinj : ∀ b, cfg.H (o.algo.getD .sha256) b = cfg.H (o.algo.getD .sha256) chunks.flatten → b = chunks.flatten)
+    (env' : Env) :
+    (run env' (read cfg cache key)
+      (cRunOps cfg cache (pre ++ (env, COp.put fl key o chunks) :: post) fs).2).1 = .ok chunks.flatten :=
+  CacheRefine.get_returns_last_put_data cfg cache pre post env fl key o chunks fs h hl hops hz hkey hdrop hinj env'
+
+open CacheRefine in
+/-- The empty cache is healthy (non-vacuity). -/
+theorem empty_cache_healthy (fs : FS)
+    (hanc : ∀ q, q ≠ [] → q <+: cache → Refine.NoneOrDir fs q)
+    (hbelow : ∀ q, cache <+: q → q ≠ cache → fs.get q = none) : Healthy cfg cache fs :=
+  CacheRefine.healthy_of_empty_cache cfg cache fs hanc hbelow
 
 end Cacache.C02
